@@ -255,7 +255,8 @@ def run(ctx):
         "hand-written coq/Data/ConvertModel.v (conv_spec, convert) tied by op-script correspondence; the vnaconv functions are abstract here (C04)",
         "extraction + ocaml/drv_data.ml, harness/data_harness.c, harness/convtable_harness.c, gcc ASan/UBSan/LSan",
         "coq/Data/ChainModel.v: conv instantiated by the generated two-port functions (Gen/Conv2All.v, property C04); the N x N functions "
-        "between S, Z, Y are identified at n = 2 with the two-port functions (Properties_C04n n = 2 equalities, not composed)",
+        "between S, Z, Y are identified at n = 2 with the two-port functions in c05_convert_chain_nport_identified; coq/Data/ChainNModel.v "
+        "interprets them by their own LU model (Conv/ConvN.v, tied by checks/convn_check.py) for the two constant pivot comparators",
         "lib/datalib.py: a probe script on the compiled library selects which of the two model variants (finding DD2 present / repaired, "
         "ConvertModel.dd2_fixed) the correspondence uses; every theorem is proved for both",
     ]
@@ -275,6 +276,7 @@ def run(ctx):
         ctx.log("T2: source no longer matches the accepted idiom:", e)
     ok, res = ctx.coq_obligations(["Gen/ConvTableGen.v", "Data/ConvertProofs.v", "Data/ConvertRefine.v", "Data/ConvertTheorems.v",
                                     "Data/ConvertExamples.v", "Data/TwoObjProofs.v", "Data/ChainProofs.v", "Data/ChainExamples.v",
+                                    "Data/ChainLift.v", "Data/ChainNProofs.v", "Data/ChainNExamples.v",
                                     "Properties_C05.v"])
 
     # ------------------------------------------------------------------ 2. validate T2
@@ -300,6 +302,7 @@ def run(ctx):
     if not quick or not ok or not t2ok:
         for i in range(300):
             seqs.append(datagen.random_script(ctx.rng, 80, maxdim=3, maxfreq=3))
+    seqs += [datagen.multi_object_script(ctx.rng) for _ in range(100 if quick else 1500)]
     nbad = 0
     for i in range(0, len(seqs), 200):
         nbad += c15.run_batch(ctx, runner, seqs[i:i + 200], "conversion scripts")
